@@ -24,6 +24,11 @@ CHECKS = {
    text="For every text up to length 4 (5 thorough) over a 1/2/4-byte alphabet and every pair of cursors of either alignment in [-len-2, len+2], annotate(TextSelector) and FindText::textselection must accept exactly the valid ranges and select exactly those codepoints; likewise for every parent range and relative cursor pair through AnnotationSelector offsets and textselection() on selections; reported offsets must be well-formed and re-resolve to the same range in all four modes; random nesting to depth 3 and extreme cursors. Exhaustive within these bounds.",
    note="Trusted: resolve_off() in harness/src/model.rs (C04 definition from the property statement). JSON/CSV serialised offsets are covered by C05/C15.",
    ref="5/C04"),
+ "C12": dict(
+   technique="runtime oracle monitor: exhaustive position/byte sweeps against a naive char_indices table under 12 configurations (milestone interval x shrink_to_fit) before/after index population + differential replay of one seeded history under all 12 configurations (observations and search answers must be identical)",
+   text="Every codepoint position 0..=len+2 and every byte offset 0..=bytes+2 of seeded texts over 1-4 byte codepoints (short texts with every sub-range, long texts of 90-260 codepoints) is converted through utf8byte / utf8byte_to_charpos / text_by_offset on the resource and on bound and unbound sub-selections, for milestone intervals 0,1,2,3,7,100 x shrink on/off, before and after annotations populate the position index; the same seeded op-history is replayed under all 12 configurations and the complete observation plus segmentation/find_text/related_text answers are compared. Held on what was swept.",
+   note="Trusted: str::char_indices as reference. utf8byte on a selection beyond the selection's own length is not judged.",
+   ref="5/C12"),
  "C13": dict(
    technique="runtime oracle monitor: exhaustive enumeration of range pairs / small set pairs against interval-arithmetic reference + algebraic laws, panics caught per call",
    text="Every ordered pair of ranges of several 7-codepoint texts (incl. zero-width, whitespace layouts) and every ordered pair of sets of size<=2 over a 10-range universe is run through the real test/test_set entry points for all 92 operator x modifier variants; each answer is compared with an interval-arithmetic reference and the converse/symmetry/implication/complement laws. Exhaustive within that bound, nothing beyond it.",
